@@ -502,6 +502,9 @@ def rule_channel_complete_flag(ctx):
     n_with = n_without = 0
     for p in ps:
         built = [e for e in p.events if e.kind == 'call' and e.data.get('name') == 'to_request_channel_frame']
+        if not built and not any(e.kind == 'call' and e.data.get('name') in ('send_request', 'send_frame')
+                                 for e in p.events):
+            continue  # subscribe() returned without opening the channel (cancelled from on_subscribe): nothing written
         if len(built) != 1:
             ok, detail = False, '%d REQUEST_CHANNEL frames built on a path' % len(built)
             continue
